@@ -462,10 +462,11 @@ def c06_stream_clause(spec, acc):
     src_dec = NMEA2000Decoder()
     defs = [d for d in dbx.defs if d.encodable and d.type in ("Single", "Fast")]
     defs.sort(key=lambda d: (d.length if d.length is not None else 99, d.index))
-    for rep in range(6 if quick else 600):
+    for rep in range(12 if quick else 600):
         enc = NMEA2000Encoder()
         msgs = []
         packets = []
+        spans = []
         picks = defs[:12] if rep == 0 else rng.sample(defs, 10)
         for d in picks:
             nb = d.length if d.length is not None else (d.total_bits() + 7) // 8
@@ -487,6 +488,7 @@ def c06_stream_clause(spec, acc):
             if spec["client"] == "usb" and any(b"\xaa\x55" in p[2:] for p in pk):
                 continue          # a marker inside a packet body is a C20 matter
             msgs.append(exp)
+            spans.append((len(packets), len(pk)))
             packets.extend(pk)
         stream = b"".join(packets)
         cuts = sorted(rng.sample(range(1, max(2, len(stream))), min(len(stream) - 1, rng.choice([0, 1, 5, 20])))) if len(stream) > 2 else []
@@ -499,6 +501,47 @@ def c06_stream_clause(spec, acc):
         cut_plans = [cuts]
         if rep == 0:
             cut_plans += [[c] for c in range(1, min(len(stream), 400))]        # a single cut at every offset
+
+        # the link is lost after the first bytes of a (single-packet) message; the gateway goes on with the next packet
+        # on the connection the client opens next: every other message must still be cut out of the two streams
+        singles = [j for j, (st_, n_) in enumerate(spans) if n_ == 1 and 0 < j < len(spans) - 1]
+        if singles and rep % 2 == 1:
+            j = rng.choice(singles)
+            start = sum(len(p_) for p_ in packets[:spans[j][0]])
+            plen = len(packets[spans[j][0]])
+            lost_at = start + rng.randint(1, plen - 1)
+
+            async def scenario2(sim):
+                sim.spawn("connect")
+                await asyncio.sleep(0.1)
+                conn = sim.conns[0]
+                conn.feed(stream[:lost_at])
+                await asyncio.sleep(0.2)
+                conn.reset(serial_loss_exception() if kind == "waveshare" else ConnectionResetError(104, "reset by peer"))
+                for _ in range(6000):
+                    if len(sim.conns) > 1 and sim.client.state.name == "CONNECTED":
+                        break
+                    await asyncio.sleep(0.01)
+                await asyncio.sleep(0.1)
+                if len(sim.conns) > 1:
+                    sim.conns[-1].feed(stream[start + plen:])
+                await asyncio.sleep(0.5)
+                await sim.call("close")
+            sim, stats = run_session(kind, scenario2)
+            acc.count("stream_sessions")
+            acc.count("stream_sessions_across_a_reconnect")
+            got = [project.msg_proj(m, with_iso=False, with_hash=False) for m in sim.received]
+            want = [project.msg_proj(m, with_iso=False, with_hash=False) for k_, m in enumerate(msgs) if k_ != j]
+            if stats["error"]:
+                acc.inconclusive_because(f"simulator: {stats['error']}")
+            elif len(sim.conns) < 2:
+                acc.count("second_connection_not_opened")
+            elif got != want:
+                acc.violation("packet-stream-recut-differently:across-reconnect", f"{spec['client']}: link lost {lost_at - start} bytes into a packet, rest of the stream on the next "
+                              f"connection: {len(want)} messages expected, {len(got)} delivered",
+                              {"client": spec["client"], "stream_hex": stream.hex()[:2000], "lost_at": lost_at, "resumed_at": start + plen})
+            else:
+                acc.count("stream_messages_delivered", len(got))
 
         for cuts in cut_plans:
             async def scenario(sim, cuts=cuts):
